@@ -68,6 +68,12 @@ fn eval_parsed(modifier: Option<&str>, ty: Option<&str>, feats: &[String], env: 
         Some(t) => t.eq_ignore_ascii_case(tyname),
     };
     for f in feats {
+        // `(not (a))`: a negated condition
+        if let Some(inner) = f.strip_prefix("(not ").and_then(|r| r.strip_suffix(')')) {
+            let idx = FEATS.iter().position(|x| *x == inner.trim())?;
+            base = base && (env.1 & (1 << idx) == 0);
+            continue;
+        }
         let idx = FEATS.iter().position(|x| x == f)?;
         base = base && (env.1 & (1 << idx) != 0);
     }
@@ -94,6 +100,13 @@ fn parse_query(s: &str) -> Option<(Option<String>, Option<String>, Vec<String>)>
     if toks[0].starts_with('(') {
         return Some((None, None, toks.iter().map(|t| t.to_string()).collect()));
     }
+    if let Some(rest) = toks[0].strip_prefix("not (") {
+        // `not (a)` is the short form of `(not (a))`; it cannot be followed by `and`
+        if toks.len() != 1 {
+            return None;
+        }
+        return Some((None, None, vec![format!("(not ({})", rest)]));
+    }
     let first: Vec<&str> = toks[0].split_whitespace().collect();
     let (m, t) = match first.len() {
         1 => (None, first[0].to_string()),
@@ -105,12 +118,21 @@ fn parse_query(s: &str) -> Option<(Option<String>, Option<String>, Vec<String>)>
             return None;
         }
     }
+    let mut feats = Vec::new();
     for f in &toks[1..] {
-        if !f.starts_with('(') {
+        if let Some(rest) = f.strip_prefix("not (") {
+            // `screen and not (a)`: short form of a single negated condition after the type
+            if toks.len() != 2 {
+                return None;
+            }
+            feats.push(format!("(not ({})", rest));
+        } else if f.starts_with('(') {
+            feats.push(f.to_string());
+        } else {
             return None;
         }
     }
-    Some((m, Some(t), toks[1..].iter().map(|t| t.to_string()).collect()))
+    Some((m, Some(t), feats))
 }
 
 fn eval_list(text: &str, env: (usize, u32)) -> Option<bool> {
@@ -262,6 +284,9 @@ fn check_case(ctx: &Ctx, sub: &str, levels: &[Vec<&Q>], l: &mut Local) {
 }
 
 pub fn run(ctx: &Ctx) {
+    // the watchdog's clock also covers the harness's own oracle work (reference models, DOM enumeration);
+    // the limit is generous so that machine load cannot turn a slow case into a verdict
+    ctx.hang_limit_s.store(300, std::sync::atomic::Ordering::Relaxed);
     let qs = alphabet();
     let n = qs.len() as u64;
     // pairs
@@ -312,6 +337,35 @@ pub fn run(ctx: &Ctx) {
         );
         ctx.bound(sub, "3 `(x) or (y)` queries x (the 63-query alphabet + the or-queries) x both nesting orders", true);
         ctx.sample(sub, json!({"input": "@media (a) or (b) { .p { @media (c) { x: y } } }"}));
+    }
+    {
+        // negated conditions (`(not (a))`, printed `not (a)` when alone) against every query, both orders
+        let sub = "negated-conditions";
+        let negs: Vec<Q> = vec![
+            Q { modifier: None, ty: None, feats: vec!["(not (a))"], or: false },
+            Q { modifier: None, ty: None, feats: vec!["(not (a))", "(b)"], or: false },
+            Q { modifier: None, ty: None, feats: vec!["(c)", "(not (b))"], or: false },
+            Q { modifier: None, ty: Some("screen"), feats: vec!["(not (a))"], or: false },
+        ];
+        let nn = negs.len() as u64;
+        par(
+            ctx,
+            sub,
+            nn * (n + nn) * 2,
+            |i| json!({"index": i}),
+            |i, l| {
+                let o = &negs[(i % nn) as usize];
+                let j = (i / nn) % (n + nn);
+                let other = if j < n { &qs[j as usize] } else { &negs[(j - n) as usize] };
+                if (i / nn) / (n + nn) == 0 {
+                    check_case(ctx, sub, &[vec![o], vec![other]], l);
+                } else {
+                    check_case(ctx, sub, &[vec![other], vec![o]], l);
+                }
+            },
+        );
+        ctx.bound(sub, "4 queries with a negated condition x (the 63-query alphabet + themselves) x both nesting orders", true);
+        ctx.sample(sub, json!({"input": "@media (not (a)) { .p { @media (b) { x: y } } }"}));
     }
     {
         // three levels with lists at the two outer levels over a 6-query sub-alphabet
